@@ -414,5 +414,16 @@ def rule_CBS(ctx, tier):
             rr.ok("store only if the charge succeeded@%s" % call_target(b.term(s)))
         else:
             rr.fail("store-without-successful-charge:%s" % call_target(b.term(s)), "the appointment is stored although add_update_appointment may have failed (NotEnoughSlots)", where=b.line_of(s))
-    rr.require_floor(4, "CBS instances")
+    # and once charged, always stored: no path from the successful charge returns without a store (a request that is turned
+    # down after the charge — a late AlreadyTriggered, say — would move the balance although nothing was taken on)
+    from .rulekit import switch_succ_with, always_reaches
+    edges = switch_succ_with(ctx, b, "variant", "Continue", "Gatekeeper::add_update_appointment")
+    if not edges:
+        rr.anchor_missing("success edge of add_update_appointment in add_appointment")
+    for sw, succ in edges:
+        if always_reaches(b, [succ], stores):
+            rr.ok("every path after a successful charge stores the appointment", sample={"rule": "CBS", "after": "add_update_appointment = Ok", "always reaches": "store_appointment | store_triggered_appointment"})
+        else:
+            rr.fail("charged-but-not-stored", "`Watcher::add_appointment` can return after `add_update_appointment` succeeded without storing the appointment: the request is refused (or lost) but the user's balance has changed", where=b.line_of(sw))
+    rr.require_floor(5, "CBS instances")
     return rr
